@@ -3,7 +3,10 @@ import itertools
 from core import Plugin
 from p_c13 import cs, ostr
 
-COVERED = {"example.test", "localhost", "127.0.0.1", "::1", "a.wild.test"}
+# names covered by each fixture certificate (fixtures/tls/gen.sh); "wrongname" is issued for other.test only
+COVERED = {"good": {"example.test", "localhost", "127.0.0.1", "::1", "a.wild.test"},
+           "wrongname": {"other.test"},
+           "untrusted": {"example.test", "localhost", "127.0.0.1", "::1"}}
 
 
 class C12(Plugin):
@@ -74,7 +77,7 @@ class C12(Plugin):
         hk = {"dns": "HDns", "ip": "HIp", "invalid": "HInvalid", "-": "HInvalid"}[o["kind"]]
         host = o["host"]
         stripped = (host or "").strip("[]").lower()
-        covered = "true" if stripped in COVERED else "false"
+        covered = "true" if stripped in COVERED[cert] else "false"
         A = {"none": "ANone", "h2": "AH2", "h11": "AH11"}
         F = {"none": "FNone", "close": "FClose", "plaintext": "FPlaintext", "truncate": "FTruncate", "transport": "FTransport"}
         C = {"good": "CGood", "wrongname": "CWrongName", "untrusted": "CUntrusted"}
